@@ -55,8 +55,11 @@ theorem N2_DS_DF__DS_DEGL (hc : c * c = 2) (h2 : (2:K) ≠ 0)
     (D : Nat → Nat → K) (F0 : M3 K) (f0 f1 f2 f3 f4 : K) (l0 l1 l2 l3 l4 : K) (s : Nat → K)  :
     upper (lamS (plane f0 f1 f2 f3 f4) (M3.ofMandel c [s 0, s 1, s 2, s 3]) (plane l0 l1 l2 l3 l4) (M3.ofMandel c (act (Gen.N2_DS_DF__DS_DEGL_r c c3 fn D (tensv F0) (tensv (plane f0 f1 f2 f3 f4)) s) (M3.tens2 ((plane l0 l1 l2 l3 l4) * (plane f0 f1 f2 f3 f4))))))
       = upper (lamS (plane f0 f1 f2 f3 f4) (M3.ofMandel c [s 0, s 1, s 2, s 3]) (plane l0 l1 l2 l3 l4) (M3.ofMandel c (act (rowsOf D i4 i4) (M3.mandel2 c (dE (plane f0 f1 f2 f3 f4) (plane l0 l1 l2 l3 l4)))))) := by
-  have hc0 : c ≠ 0 := c_ne_zero hc h2
-  c23_rat0 hc
+  have key : (act (Gen.N2_DS_DF__DS_DEGL_r c c3 fn D (tensv F0) (tensv (plane f0 f1 f2 f3 f4)) s) (M3.tens2 ((plane l0 l1 l2 l3 l4) * (plane f0 f1 f2 f3 f4))))
+      = (act (rowsOf D i4 i4) (M3.mandel2 c (dE (plane f0 f1 f2 f3 f4) (plane l0 l1 l2 l3 l4)))) := by
+    have hc0 : c ≠ 0 := c_ne_zero hc h2
+    c23_rat0 hc
+  rw [key]
 
 /-- `DSIG_DF ← DTAU_DF` (2D): along every variation `δF = L F` the converted operator, applied to the
 rate of its kinematic variable, gives the rate of the Cauchy stress that reproduces the same Lie derivative of
